@@ -299,9 +299,33 @@ def string_literal(rng):
     return p + q + body + q
 
 
+_ID_START = ['a', 'Z', '_', 'x', '\xe9', '\xb5', '\xaa', '\u03bb', '\u4e2d', '\u2118', '\u212e', '\u0646', '\U0001d431', '\U00020000', '\U00010400', '\U0001d7ce',
+             '\u1885', '\ufb01', '\u2160']
+_ID_CONT = ['b', '1', '_', '9', '\u0301', '\xb7', '\u203f', '\u0663', '\U0001d7d8', '\U000e0100', '\u4e2d', '\xe9', '\U00020000', '\u0387', '\u1369', 'y']
+
+
+def identifier(rng):
+    """identifiers from every corner of PEP 3131 (ID_Start / ID_Continue incl. Other_ID_*, non-BMP letters and digits, NFKC-folding
+    characters); a few are invalid on purpose (a digit or a mark first) - the reference interpreter decides"""
+    s = rng.choice(_ID_START if rng.random() < .93 else _ID_CONT)
+    for _ in range(rng.choice([0, 0, 1, 1, 2, 4])):
+        s += rng.choice(_ID_CONT if rng.random() < .7 else _ID_START)
+    return s
+
+
+_ID_TMPL = ['%s = 1\n', 'def %s(): pass\n', 'class %s: pass\n', 'import %s\n', 'x.%s\n', 'f(%s=1)\n', 'from a import %s\n', 'import a as %s\n', 'lambda %s: 0\n',
+            'def f(%s, *, k): pass\n', 'for %s in y: pass\n', 'x = %s\n', 'x = [%s for %s in y]\n', 'del %s\n', 'with a as %s: pass\n', '(%s := 1)\n', 'x = a if %s else b\n',
+            'def f():\n    global %s\n', '@%s\ndef f(): pass\n', 'x = %s.%s\n', 'x = f"{%s}"\n', 'try: pass\nexcept E as %s: pass\n', 'x = 1if %s else 2\n']
+
+
 def lexical_program(rng):
     lines = []
     for _ in range(rng.randint(1, 5)):
+        r = rng.random()
+        if r < .2:
+            t = rng.choice(_ID_TMPL)
+            lines.append(t.replace('%s', identifier(rng)) if rng.random() < .7 else t % tuple(identifier(rng) for _ in range(t.count('%s'))))
+            continue
         r = rng.random()
         if r < .4:
             lit = number_literal(rng)
